@@ -102,14 +102,27 @@ def _run(subj, sim, ops, r):
         def __call__(self, *a, **k):
             return self.fn(*a, **k)
 
-    def make_handler(hid, as_object=False):
+    class _Boom(Exception):
+        """raised by a handler AFTER it has noted the Interest: the application's bug is the application's business - reception goes on"""
+
+    def make_handler(hid, as_object=False, as_method=False, raises=False):
         if subj == 'v2':
             def h(name, app_param, reply, context):
                 calls.append({'hid': hid, 'name': [bytes(c) for c in name], 'reply': reply, 'ctx': context,
                               't': sim.vl.now_ms(), 'replied': 0})
+                if raises:
+                    raise _Boom(hid)
         else:
             def h(name, param, app_param):
                 calls.append({'hid': hid, 'name': [bytes(c) for c in name], 't': sim.vl.now_ms() if sim else 0})
+                if raises:
+                    raise _Boom(hid)
+        if as_method:
+            # a bound method of a producer object that nobody else keeps a reference to ("Producer(app)" fire and forget)
+            class _Producer:
+                def on_interest(self, *a, **k):
+                    return h(*a, **k)
+            return _Producer().on_interest
         return _Collector(h) if as_object else h
 
     def _mutable_arg(key, rep):
@@ -139,7 +152,10 @@ def _run(subj, sim, ops, r):
         else:
             arg = P.name_in_rep([[T.read_num(c, 0, len(c))[0], bytes(c[T.read_tlv(c, 0, len(c))[2]:]).hex()] for c in key], rep)
         gen[0] += 1
-        h = make_handler(gen[0], as_object=rep % 3 == 2 and val is None)
+        h = make_handler(gen[0], as_object=rep % 3 == 2 and val is None, as_method=rep % 5 == 1,
+                         raises=rep % 7 == 3 and subj != 'dispatcher')
+        if rep % 7 == 3 and subj != 'dispatcher':
+            flags.add('raising-handler')
         if subj == 'v2':
             from ndn.types import ValidResult
             validator = None
@@ -183,8 +199,11 @@ def _run(subj, sim, ops, r):
                 return model[tuple(name[:k])], k
         return None, None
 
+    import gc
     for op in ops:
         k = op['op']
+        if k == 'interest':
+            gc.collect()        # (whatever the library does not hold on to is gone by now)
         if k == 'attach':
             if 'k' in op:
                 if not attached_order:
@@ -364,7 +383,8 @@ def _run(subj, sim, ops, r):
             if bool(ret) != bool(sent):
                 r.bad(f'C04/v2/reply-return-untruthful/returned={ret!r}/sent={bool(sent)}', f'now={now} deadline={deadline}')
     if sim is not None:
-        errs = sim.vl.collect_errors()
+        # (a handler's own exception ends up with the loop's exception handler - not the library's fault)
+        errs = [e for e in sim.vl.collect_errors() if e['type'] != '_Boom']
         if errs:
             r.bad(f'C04/{subj}/unhandled-loop-error/{errs[0]["type"]}', str(errs[:2]))
     nontrivial = bool(flags) and any(t in ('I', 'i') for t in trace)
